@@ -665,8 +665,19 @@ func childRequester(args []string) {
 	for w := 0; w < workers; w++ {
 		envs <- newReqEnv(w, payloads)
 	}
+	// cases the harness cannot judge cost a watchdog each: after a few of them stop and report what was judged
+	unjudged, skipped := 0, 0
 	parallel(len(list), workers, func(k int) {
 		i := list[k]
+		a.mu.Lock()
+		stop := unjudged >= maxUnjudgedCases
+		if stop {
+			skipped++
+		}
+		a.mu.Unlock()
+		if stop {
+			return
+		}
 		rc := reqCaseOf(seed, i)
 		logf(fmt.Sprintf("requester case %d role=%s targets=%d sendfail=%v script=%s", i, rc.Role, rc.N, rc.SendFail, describe(rc.Script)))
 		env := <-envs
@@ -676,8 +687,11 @@ func childRequester(args []string) {
 		a.mu.Lock()
 		a.res.Evals++
 		a.key[rc.key()] = struct{}{}
-		if out.Watchdog != "" && len(a.res.Inconclusive) < 5 {
-			a.res.Inconclusive = append(a.res.Inconclusive, fmt.Sprintf("requester case %d: %s", i, out.Watchdog))
+		if out.Watchdog != "" {
+			unjudged++
+			if len(a.res.Inconclusive) < 5 {
+				a.res.Inconclusive = append(a.res.Inconclusive, fmt.Sprintf("requester case %d: %s", i, out.Watchdog))
+			}
 		}
 		a.mu.Unlock()
 		for k, v := range facts {
@@ -687,6 +701,9 @@ func childRequester(args []string) {
 			a.violation(v.Class, v.Msg, func() interface{} { return out })
 		}
 	})
+	if skipped > 0 {
+		a.res.Inconclusive = append(a.res.Inconclusive, fmt.Sprintf("%d requester cases could not be judged (see above); the remaining %d cases of this child were not run", unjudged, skipped))
+	}
 	a.write(resFile)
 	_ = lf.Close()
 	os.Exit(0)
